@@ -7,7 +7,7 @@ quick tier : a recording stand-in for `paramiko.Transport`/`paramiko.Agent` reac
              load_known_hosts + paramiko.HostKeys on a real known_hosts file, _auth with real key files.
 thorough   : a real in-process paramiko server over a socketpair and a real `ssl` server on 127.0.0.1.
 Nothing here is imported by ncclient; all rebinding is undone after each run.  Files live under <framework>/run/c15."""
-import os, sys, base64, socket, threading, time, subprocess, shutil, contextlib, ssl as _ssl
+import os, sys, base64, socket, threading, time, subprocess, shutil, contextlib, hashlib, ssl as _ssl
 
 from vlib import paths
 
@@ -22,6 +22,42 @@ def _mkdir(p):
     os.makedirs(p, exist_ok=True)
     return p
 
+def colon_fp(key):
+    """The fingerprint a caller's unknown_host_cb compares against: the colon-separated lower-case hexadecimal MD5 of the
+    public key blob (what `ssh-keygen -l -E md5` prints after "MD5:"), computed here from the blob, not by the library."""
+    h = hashlib.md5(key.asbytes()).hexdigest()
+    return ':'.join(h[i:i + 2] for i in range(0, len(h), 2))
+
+def host_name(sel, dialled):
+    """the host-name strings of the model's hsel, relative to the host that was dialled"""
+    return {'host': dialled, 'hostport': '[%s]:%s' % (dialled, PORT), 'other': 'elsewhere.example'}[sel]
+
+def classify_host(name, dialled):
+    for sel in ('host', 'hostport', 'other'):
+        if name == host_name(sel, dialled) and type(name) is type(host_name(sel, dialled)): return sel
+    return 'unexpected:%r' % (name,)
+
+def classify_fp(fp):
+    """which pool key a fingerprint string belongs to (the key NAME, e.g. 'E1'), else the string itself, marked"""
+    pool = Pool.get()
+    if isinstance(fp, str):
+        for n in sorted(pool.host):
+            if not n.startswith('SRV') and colon_fp(pool.host[n]) == fp: return n
+    return 'unexpected:%r' % (fp,)
+
+def make_callback(policy, const_verdict, dialled, record):
+    """A caller's unknown_host_cb.  policy None: answers `const_verdict` (raw value); ['fp', K]: True only when shown the
+    fingerprint of pool key K; ['host', sel]: True only when called with that host name; ['hostfp', sel, K]: both.
+    `record(host, fingerprint)` is told what it was called with."""
+    pool = Pool.get()
+    want_fp = colon_fp(pool.host[policy[-1]]) if policy and policy[0] in ('fp', 'hostfp') else None
+    want_host = host_name(policy[1], dialled) if policy and policy[0] in ('host', 'hostfp') else None
+    def cb(host, fingerprint):
+        record(host, fingerprint)
+        if not policy: return const_verdict
+        return (want_fp is None or fingerprint == want_fp) and (policy[0] == 'fp' or host == want_host)
+    return cb
+
 # ------------------------------------------------------------------ key pool
 class Pool:
     """Real paramiko keys.  Model names: (key type, blob id)."""
@@ -32,8 +68,10 @@ class Pool:
         self.host = {}                     # name -> PKey : keys a server may present / known_hosts may hold
         self.host['E1'] = paramiko.ECDSAKey.generate()
         self.host['E2'] = paramiko.ECDSAKey.generate()
+        self.host['E3'] = paramiko.ECDSAKey.generate()
+        self.host['X9'] = paramiko.ECDSAKey.generate()      # never presented, never stored: "some other fingerprint"
         self.host['R1'] = paramiko.RSAKey.generate(1024)
-        self.code = {'E1': (1, 10), 'E2': (1, 11), 'R1': (2, 20)}
+        self.code = {'E1': (1, 10), 'E2': (1, 11), 'E3': (1, 12), 'X9': (1, 99), 'R1': (2, 20)}
         self.agent = [paramiko.ECDSAKey.generate() for _ in range(2)]
         kd = _mkdir(os.path.join(RUNDIR, 'keys'))
         self.keyfile = {}                  # name -> (path, PKey or None); kfe is encrypted with the passphrase 'pw'
@@ -100,9 +138,12 @@ class _Proxy:
         setattr(self.__dict__['_real'], n, v)
 
 def run_ssh_fake(case):
-    """Run manager.connect_ssh on the case with the recording transport.  Returns (events, result code, exc name).
-    events (raw): ('StartClient',) ('GetServerKey',) ('CallbackAsked',) ('Auth', kind, idx, ok) ('OpenSession',)
-                  ('Invoke', name) ('OpenChannel',) ('Exec',) ('SendHello',)"""
+    """Run manager.connect_ssh on the case with the recording transport.  Returns (events, result code, exc name, detail).
+    events (raw): ('StartClient',) ('GetServerKey',) ('CallbackAsked', host class, key name) ('Auth', kind, idx, ok)
+                  ('OpenSession',) ('Invoke', name) ('OpenChannel',) ('Exec',) ('SendHello',)
+    CallbackAsked records what the caller's callback was called WITH: the host argument classified relative to the dialled
+    host ('host' | 'hostport' | 'other' | 'unexpected:..') and the pool key whose fingerprint it was shown (or 'unexpected:..').
+    detail: for SSHUnknownHostError [host class of .host, key name of .fingerprint], else []."""
     import paramiko
     import ncclient.transport.ssh as sshmod
     import ncclient.transport as tpkg
@@ -169,9 +210,11 @@ def run_ssh_fake(case):
         def _post_connect(self, timeout=60):
             ev.append(('SendHello',))
             if not case['hello_ok']: raise SessionError('Capability exchange timed out')
-    def user_cb(host, fingerprint):
-        ev.append(('CallbackAsked',)); return case['cb_verdict']      # the raw value: the library must go by its truthiness
-    kw = dict(host=(None if case.get('host_none') else HOST), port=PORT, sock=object(), username='u', hostkey_verify=bool(case['verify']),
+    dialled = None if case.get('host_none') else HOST
+    # constant policies answer the raw value: the library must go by its truthiness
+    user_cb = make_callback(case.get('cb_policy'), case['cb_verdict'], dialled,
+                            lambda h, f: ev.append(('CallbackAsked', classify_host(h, dialled), classify_fp(f))))
+    kw = dict(host=dialled, port=PORT, sock=object(), username='u', hostkey_verify=bool(case['verify']),
               allow_agent=bool(case['allow_agent']), look_for_keys=bool(case['look_for_keys']),
               device_params={'name': case['profile']})
     if case['password']: kw['password'] = 'pw'
@@ -208,7 +251,10 @@ def run_ssh_fake(case):
         exc = e
     finally:
         sshmod.paramiko, tpkg.SSHSession = real_para, real_cls
-    return ev, exc_code(exc), (type(exc).__name__ if exc else None)
+    detail = []
+    if exc_code(exc) == 1:
+        detail = [classify_host(getattr(exc, 'host', '<no .host>'), dialled), classify_fp(getattr(exc, 'fingerprint', '<no .fingerprint>'))]
+    return ev, exc_code(exc), (type(exc).__name__ if exc else None), detail
 
 # ------------------------------------------------------------------ quick: recording ssl
 def run_tls_fake(case):
@@ -281,7 +327,9 @@ def server_rsa():
 
 def run_ssh_real(case, timeout=20):
     """SSHSession.connect(sock=...) against an in-process paramiko server over a socketpair.
-    case: verify, kh ('absent'|'host'|'hostport'|'different'), pin (None|'match'|'different'), cb (None|True|False),
+    case: verify, kh ('absent'|'host'|'hostport'|'different'|'different_hostport'|'different_both'), pin (None|'match'|'different'),
+          cb (None|True|False|'only_presented'|'only_stored'|'only_random': accepts exactly the fingerprint of the server's key /
+          of the other key of that type (the one 'different*' layouts store, the one pin 'different' pins) / of a key seen nowhere),
           password (None|'right'|'wrong'), keyfile (None|'right'|'wrong'), subsystem_ok, hostkey ('ecdsa' default | 'rsa' = RSA 2048).
     Returns dict(server=[...events seen by the server...], bytes=<octets received on the channel>, code, exc, cb_asked)."""
     import paramiko
@@ -333,12 +381,18 @@ def run_ssh_real(case, timeout=20):
         st.start_server(event=threading.Event(), server=Srv())
     except Exception:
         pass
-    kh = {'absent': None, 'host': [('host', 'SRV')], 'hostport': [('hostport', 'SRV')], 'different': [('host', other_name)]}[case['kh']]
-    pool.host['SRV'] = hostkey
+    srv = 'SRVR' if rsa else 'SRV'             # (known_hosts homes are cached by content: one name per server key)
+    kh = {'absent': None, 'host': [('host', srv)], 'hostport': [('hostport', srv)], 'different': [('host', other_name)],
+          'different_hostport': [('hostport', other_name)],
+          'different_both': [('host', other_name), ('hostport', other_name)]}[case['kh']]
+    pool.host[srv] = hostkey
     home = home_for(kh, [])
     cb_asked = []
+    want = {'only_presented': colon_fp(hostkey), 'only_stored': colon_fp(other), 'only_random': colon_fp(pool.host['X9'])}
     def cb(host, fp):
-        cb_asked.append(fp); return bool(case['cb'])
+        cb_asked.append([host, fp])
+        if case['cb'] in want: return fp == want[case['cb']]
+        return bool(case['cb'])
     kw = dict(host=HOST, port=PORT, sock=a, username='u', hostkey_verify=bool(case['verify']),
               allow_agent=False, look_for_keys=False, timeout=timeout)
     if case['pin'] == 'match': kw['hostkey_b64'] = base64.b64encode(hostkey.asbytes()).decode()
@@ -374,7 +428,9 @@ def run_ssh_real(case, timeout=20):
         except Exception: pass
     with lock:
         return dict(server=list(seen), bytes=bytes(got), code=exc_code(exc), exc=(type(exc).__name__ if exc else None),
-                    msg=(str(exc)[:200] if exc else ''), cb_asked=len(cb_asked), connected=connected)
+                    msg=(str(exc)[:200] if exc else ''), cb_asked=cb_asked, connected=connected,
+                    presented=[HOST, colon_fp(hostkey)],
+                    exc_args=([getattr(exc, 'host', None), getattr(exc, 'fingerprint', None)] if exc_code(exc) == 1 else None))
 
 # ------------------------------------------------------------------ thorough: real TLS server
 def _openssl(*args, cwd):
